@@ -2,6 +2,7 @@
 from __future__ import annotations
 
 from kfv.core import Ctx
+from kfv.rules import memo_rules as MEMO
 from kfv.rules import c19 as C19
 from kfv.rules import role_rules as RO
 from kfv.rules import tensor_rules as TR
@@ -11,14 +12,14 @@ from kfv.rules import spmd_rules as S
 
 TECHNIQUE = ('writer/reader key-table agreement of state_dict/load_state_dict (base and layer), guard and order analysis of '
              'load_state_dict (count check, name matching, restore-before-recompute by symbolic hyper-parameter state), '
-             'SPMD membership rule on the recompute branch, alias rule on factor slots')
+             'SPMD membership rule on the recompute branch, alias rule on factor slots; statelessness of the scheduler update (new = current * factor); cache-coherence rule')
 EXPLANATION = (
     'state_dict() and load_state_dict() are reduced to tables key -> (field, condition) and compared: every key saved is '
     'restored into the field it was saved from, hyper-parameters exactly when they are not functions, the layer states '
     'through the awaiting accessors under the layer\'s own name.  A differing layer count must raise before anything is '
     'loaded.  A symbolic run of load_state_dict shows that the second-order recomputation sees the restored counter and '
     'damping; the collective-matching rules S1/S2 are applied to the recompute branch; factor slots are rebound, never '
-    'mutated in place (state dicts hand out aliases).  Bit-equality of a continued run is not decided.')
+    'mutated in place (state dicts hand out aliases).  Bit-equality of a continued run is not decided. LambdaParamScheduler multiplies the current (restored) value, so a restored state continues where it stopped; cached state is invalidated by load_state_dict (MEMO-*).')
 
 NOT_DECIDED = 'bit-equality of a continued run'
 
@@ -34,3 +35,4 @@ def run(ctx: Ctx) -> None:
     ctx.do(TR.rule_alias_input)
     ctx.do(RO.rule_roles)
     ctx.do(C19.rule_scheduler)
+    ctx.do(MEMO.rule_memo)
